@@ -223,3 +223,9 @@ pub(crate) fn index_checked_from_collector<S: Open>(
     collector.extend(index_packs);
     Ok(GlobalIndex::new_from_index(collector.into_index()))
 }
+
+#[cfg(rustic_core_verif)]
+#[allow(missing_docs, unused_imports, dead_code, clippy::all, clippy::pedantic, clippy::nursery)]
+pub mod verif_hooks {
+    use super::*;
+}
